@@ -842,6 +842,58 @@ for cls, tag, fn in (('ResidualVQ', 'rvq', RVQ), ('ResidualFSQ', 'rfsq', RFSQ), 
                                                'random.getrandbits', 'random.uniform'),
         f'{cls}.forward: generator of the dropout depth'))))
 
+# writes THROUGH view handles: an in-place write whose target is a reshape / flatten / view / rearrange ... expression (or a name bound to one) lands
+# in a throw-away copy whenever that call cannot return a view (a dense permuted input: round-6 seeds C04-f, C05-f, C06-f, C09-f, C10-f).  The
+# inventory lists every such statement of the package; it is pinned, so a new one is an obligation to look at.
+_VIEW_CALLS = {'reshape', 'flatten', 'view', 'rearrange', 'permute', 'transpose', 'expand', 'unflatten', 'squeeze', 'unsqueeze', 'chunk', 'split', 'unbind', 'narrow', 'movedim', 'contiguous'}
+
+
+def _view_call_in(e):
+    for n in ast.walk(e):
+        if isinstance(n, ast.Call):
+            f = n.func
+            nm = f.attr if isinstance(f, ast.Attribute) else (f.id if isinstance(f, ast.Name) else None)
+            if nm in _VIEW_CALLS:
+                return nm
+    return None
+
+
+@item('inv_view_writes')
+def _():
+    rows = []
+    for fname in (VQ, RVQ, FSQF, LFQF, RFSQ, RLFQ, RSVQ, SIMVQ, LQ, RPQ):
+        tree = G.module_ast(fname)
+        for func in [n for n in ast.walk(tree) if isinstance(n, ast.FunctionDef)]:
+            handles = {}
+            for st in ast.walk(func):
+                if isinstance(st, ast.Assign) and len(st.targets) == 1 and isinstance(st.targets[0], ast.Name) and isinstance(st.value, ast.Call) and _view_call_in(st.value):
+                    handles[st.targets[0].id] = _view_call_in(st.value)
+            for st in ast.walk(func):
+                hit = None
+                if isinstance(st, ast.Assign):
+                    for t in st.targets:
+                        if isinstance(t, ast.Subscript):
+                            if _view_call_in(t.value):
+                                hit = 'subscript assignment through ' + _view_call_in(t.value)
+                            elif isinstance(t.value, ast.Name) and t.value.id in handles:
+                                hit = f'subscript assignment to the handle {t.value.id} <- {handles[t.value.id]}'
+                elif isinstance(st, ast.AugAssign):
+                    base = st.target.value if isinstance(st.target, ast.Subscript) else st.target
+                    if _view_call_in(base):
+                        hit = 'augmented assignment through ' + _view_call_in(base)
+                    elif isinstance(base, ast.Name) and base.id in handles:
+                        hit = f'augmented assignment to the handle {base.id} <- {handles[base.id]}'
+                elif isinstance(st, ast.Expr) and isinstance(st.value, ast.Call) and isinstance(st.value.func, ast.Attribute) and st.value.func.attr.endswith('_') \
+                        and not st.value.func.attr.startswith('__'):
+                    base = st.value.func.value
+                    if _view_call_in(base):
+                        hit = f'in-place method {st.value.func.attr} through ' + _view_call_in(base)
+                    elif isinstance(base, ast.Name) and base.id in handles:
+                        hit = f'in-place method {st.value.func.attr} on the handle {base.id} <- {handles[base.id]}'
+                if hit:
+                    rows.append(f'{fname}:{func.name}: {hit} :: ' + ast.unparse(st).replace('\n', ' ')[:160])
+    return G.emit_strings('inv_view_writes', sorted(rows), 'in-place writes through view handles (whole package)')
+
 
 # einops patterns (G3)
 for name, fname, qual in (('pat_vq_forward', VQ, 'VectorQuantize.forward'), ('pat_vq_split', VQ, 'VectorQuantize.maybe_split_heads_from_input'),
